@@ -403,7 +403,7 @@ def subchecks(tier):
     S = []
 
     def add(name, strat, oracle, quick=50, thorough=250, exc=LinAlg, **kw):
-        S.append(SubCheck(name, strat, oracle, quick=3 * quick, thorough=6 * thorough, discard_exc=exc,
+        S.append(SubCheck(name, strat, oracle, quick=3 * quick, thorough=4 * thorough, discard_exc=exc,
                           budget_quick=45.0, budget_thorough=100.0, shards_thorough=2, **kw))
 
     # --- parafac -----------------------------------------------------------
@@ -481,7 +481,7 @@ def subchecks(tier):
         q = 25 if g == "nn" else 50
         add(f"parafac2/{g}/return_errors", parafac2_case(g, iters=its), o_errors(F2), quick=q, thorough=4 * q)
         add(f"parafac2/{g}/prefix", parafac2_case(g, iters=pits, tols=(1e-14,)), o_prefix(F2),
-            quick=q // 2 if g in ("nn", "linesearch") else q, thorough=2 * q)
+            quick=q // 2 if g in ("nn", "linesearch") else q, thorough=(q // 2 if g == "linesearch" else 2 * q))
 
     # --- tensor ring ALS ---------------------------------------------------
     TR = xi.TensorRingALS()
